@@ -14,6 +14,38 @@
 //! through `.tinydiff` text (reference printer → file → real `tiny_v2_diff::read_file`).
 //!
 //! Engine 3: the full truth table of `quill::apply_diff_option`.
+//!
+//! Every diff of engine 1 (consistent with the target or not) and the sparse reference diff of every
+//! pair of engine 2 also travel through `.tinydiff` text and are then judged like the object form.
+//!
+//! Engine 4 (`c04/extra.rs`): the pair law of engine 2 over exhaustive universes in which one map has
+//! several entries — three fields of one class (two of the same name), three parameters of one
+//! method, three classes, two methods and a field of the same name.
+//! Engine 5 (`c04/extra.rs`): the diffs of engine 1 applied to targets with a THIRD namespace, either
+//! non-first namespace being the target namespace (the other one must stay as it is).
+//! Engine 6 (`c04/extra.rs`): the namespace argument of `apply_to` (a name the target does not have).
+//! Engine 7 (`c04/text.rs`): every comment string over {a, n, backslash, line break, é, blank} up to a
+//! length as the value of every comment action at every level, through text (escaping).
+//! Engine 8 (`c04/text.rs`): damaged texts (line-wise mutations of printed diffs): panics and hangs only.
+//!
+//! Clause table (statement and quantifier of C04 → where it is decided):
+//!
+//! | clause | decided in | space |
+//! |---|---|---|
+//! | additions appear | `judge_apply` → `classify` against `mapmodel::diff::apply`: cells `L\|add\|absent`, `L\|add\|vacant` | engine 1 (all levels L), 5 (third namespace), 2/4 (diffs of pairs); through text: `judge_text_apply`, engine 7 |
+//! | removals disappear with their subtree | same oracle: cells `L\|remove\|matching`; outcome `removal-with-actions-below-applied`; pairs whose B lacks an entry of A that has children | engines 1, 2, 4, 5 |
+//! | edits replace the old value | cells `L\|edit\|matching`, `L\|edit-same\|matching` | engines 1, 5, 7 (both sides of comment edits) |
+//! | untouched entries stay identical | the result must EQUAL the reference result as a whole set: the other class, sibling entries of the same map (engine 4), names in the other namespaces (engine 5), parameter source names, comments | all engines |
+//! | ... in the target namespace | engine 5 (target namespace = second or third of three), engine 6 (a name the set does not have must be refused) | 160 (Q) widened sets × alphabet |
+//! | a stated old value that does not match → refused | cells `L\|{remove,edit,edit-same}\|{absent,vacant,mismatching}`: `Ok` is `accepted-inconsistent` | engines 1, 5; through text: engines 1 (text leg), 7 (`remove-other`, `edit-other`) |
+//! | an addition that collides → refused | cells `L\|add\|{matching,mismatching}` (and `absent` for comments of a missing entry) | engines 1, 5 |
+//! | the WHOLE application is refused, nothing silently wrong | the real result is `Err` or a complete set compared as a whole; two-slot diffs combine a consistent with an inconsistent part | engine 1 (parent+child pairs at every depth, every pair of slots below depth 1 (Q) / 2 (T)) |
+//! | apply(diff(A,B), A) = B for sets over the same namespaces | `judge_pair` → `judge_inverse`, A and B also built in other insertion orders; `diff` must succeed when all target names are there | engine 2 (reached sets, capped), engine 4 (exhaustive) |
+//! | ... also through the .tinydiff form | text legs of `judge_pair` (reference printer → `read_file` → `apply_to`), in two line orders for engine 4; `judge_text_apply` for single diffs; printer self-check `read_file(print(d)) == d` | engines 1, 2, 4, 7 |
+//! | pairs sharing some, all or no keys at every level | engine 4: every subset of three keys at class, field and parameter level, of two at method level, on both sides; engine 2: the sets reached from empty / fully named / half named | |
+//! | each of the 4 actions × present/absent target × matching/mismatching old value at class, field, method, parameter and comment level | vacuity floors over `required_cells()`: 109 cells that must refuse, 50 that must succeed, for two and for three namespaces | engines 1, 5 |
+//! | (anchor) `apply_diff_option` | engine 3, 9 action forms × 4 targets × 2 types against a table written from the statement | exhaustive |
+//! | (anchor) two-column decoding: empty = absent, equal = none | text legs: entry lines without action (sparse diffs), `a a` lines (real diffs), comment columns holding blanks, backslashes, line breaks, non-ASCII (engine 7) | |
 
 use std::collections::{BTreeMap, BTreeSet};
 use std::path::{Path, PathBuf};
@@ -26,6 +58,11 @@ use quill::tree::mappings_diff::{Action, MappingsDiff};
 use rayon::prelude::*;
 use stateright::{Checker, Model, Property};
 use vcore::{json, Ctx, Stats, Value};
+
+#[path = "c04/text.rs"]
+mod text;
+#[path = "c04/extra.rs"]
+mod extra;
 
 // ---------------------------------------------------------------------------------------------
 // the universe
@@ -68,11 +105,13 @@ const CLASSES: [ClassSpec; 2] = [
 	},
 	ClassSpec {
 		key: "B",
-		class: NodeSpec { names: ["U", "V"], docs: ["ü☃ É", "d"] },
+		// comments that need escaping in the text form together with characters outside ASCII, a
+		// backslash that is followed by an `n`, a backslash at the end, blanks at either end
+		class: NodeSpec { names: ["U", "V"], docs: ["ü☃ É", "é\nd\\"] },
 		field_key: ("f", "Lp/A;"),
-		field: NodeSpec { names: ["g", "k"], docs: ["fd", "fd two"] },
+		field: NodeSpec { names: ["g", "k"], docs: ["fd", "t \\n µ"] },
 		method_key: ("m", "(ILp/A;)V"),
-		method: NodeSpec { names: ["n", "r"], docs: ["md", "md two"] },
+		method: NodeSpec { names: ["n", "r"], docs: ["md ", " \\\\md"] },
 		param_index: 1,
 		param_src: Some("s1"),
 		param: NodeSpec { names: ["a", "b"], docs: ["pd", "l1\n\nl3"] },
@@ -165,22 +204,22 @@ fn site_values(site: Site) -> [&'static str; 2] {
 }
 
 /// (does the entry holding the slot exist, the slot's current value)
-fn site_current(m: &MSet, site: Site) -> (bool, Option<String>) {
+fn site_current(m: &MSet, site: Site, t: usize) -> (bool, Option<String>) {
 	let s = &CLASSES[site.class];
 	let c = m.classes.get(s.key);
 	let f = c.and_then(|c| c.fields.get(&fkey(s)));
 	let me = c.and_then(|c| c.methods.get(&mkey(s)));
 	let p = me.and_then(|me| me.params.get(&s.param_index));
 	match site.level {
-		Level::Namespace => (true, Some(m.ns[1].clone())),
+		Level::Namespace => (true, Some(m.ns[t].clone())),
 		Level::MappingsComment => (true, m.doc.clone()),
-		Level::Class => (c.is_some(), c.and_then(|c| c.names[1].clone())),
+		Level::Class => (c.is_some(), c.and_then(|c| c.names[t].clone())),
 		Level::ClassComment => (c.is_some(), c.and_then(|c| c.doc.clone())),
-		Level::Field => (f.is_some(), f.and_then(|c| c.names[1].clone())),
+		Level::Field => (f.is_some(), f.and_then(|c| c.names[t].clone())),
 		Level::FieldComment => (f.is_some(), f.and_then(|c| c.doc.clone())),
-		Level::Method => (me.is_some(), me.and_then(|c| c.names[1].clone())),
+		Level::Method => (me.is_some(), me.and_then(|c| c.names[t].clone())),
 		Level::MethodComment => (me.is_some(), me.and_then(|c| c.doc.clone())),
-		Level::Parameter => (p.is_some(), p.and_then(|c| c.names[1].clone())),
+		Level::Parameter => (p.is_some(), p.and_then(|c| c.names[t].clone())),
 		Level::ParameterComment => (p.is_some(), p.and_then(|c| c.doc.clone())),
 	}
 }
@@ -323,11 +362,11 @@ enum Pairs {
 	All,
 }
 
-fn steps_for(m: &MSet, pairs: Pairs) -> Vec<Step> {
+fn steps_for(m: &MSet, pairs: Pairs, t: usize) -> Vec<Step> {
 	let all = sites();
 	let mut per_site: Vec<Vec<Part>> = Vec::new();
 	for &site in &all {
-		let (exists, cur) = site_current(m, site);
+		let (exists, cur) = site_current(m, site, t);
 		per_site.push(act_forms(site_values(site)).into_iter().map(|act| Part { site, cond: condition(&act, exists, &cur), act }).collect());
 	}
 	let mut out: Vec<Step> = Vec::new();
@@ -558,20 +597,19 @@ impl Real {
 	}
 }
 
-fn quill_set(m: &MSet, o: Order) -> Mappings<2, ()> {
-	mapmodel::to_quill_ordered::<2, ()>(m, o).unwrap_or_else(|e| vcore::machinery_fail(&format!("generator produced a set quill's constructors reject: {e:#}\n{}", set_json(m))))
+fn quill_set<const N: usize>(m: &MSet, o: Order) -> Mappings<N, ()> {
+	mapmodel::to_quill_ordered::<N, ()>(m, o).unwrap_or_else(|e| vcore::machinery_fail(&format!("generator produced a set quill's constructors reject: {e:#}\n{}", set_json(m))))
 }
 
 fn quill_diff(d: &MDiff, o: Order) -> MappingsDiff {
 	mapmodel::diff_to_quill(d, o).unwrap_or_else(|e| vcore::machinery_fail(&format!("generator produced a diff quill's constructors reject: {e:#}\n{}", diff_json(d))))
 }
 
-/// the REAL `MappingsDiff::apply_to`
-fn real_apply_obj(qd: &MappingsDiff, target: &MSet, ot: Order) -> Real {
-	let qt = quill_set(target, ot);
-	let ns = target.ns[1].clone();
+/// the REAL `MappingsDiff::apply_to`, called with the namespace NAME `ns`
+fn real_apply_named<const N: usize>(qd: &MappingsDiff, target: &MSet, ot: Order, ns: &str) -> Real {
+	let qt = quill_set::<N>(target, ot);
 	match vcore::guard(|| {
-		let r: anyhow::Result<Mappings<2, ()>> = qd.apply_to(qt, &ns);
+		let r: anyhow::Result<Mappings<N, ()>> = qd.apply_to(qt, ns);
 		r.map(|q| mapmodel::from_quill(&q)).map_err(|e| format!("{e:#}"))
 	}) {
 		Err(p) => Real::Panicked(p),
@@ -581,13 +619,22 @@ fn real_apply_obj(qd: &MappingsDiff, target: &MSet, ot: Order) -> Real {
 	}
 }
 
-fn real_apply(d: &MDiff, target: &MSet, ot: Order, od: Order) -> Real {
-	real_apply_obj(&quill_diff(d, od), target, ot)
+/// the REAL `MappingsDiff::apply_to` with the `t`-th namespace of the target as target namespace
+fn real_apply_obj(qd: &MappingsDiff, target: &MSet, ot: Order, t: usize) -> Real {
+	match target.n() {
+		2 => real_apply_named::<2>(qd, target, ot, &target.ns[t]),
+		3 => real_apply_named::<3>(qd, target, ot, &target.ns[t]),
+		n => vcore::machinery_fail(&format!("no real call for sets with {n} namespaces")),
+	}
+}
+
+fn real_apply(d: &MDiff, target: &MSet, ot: Order, od: Order, t: usize) -> Real {
+	real_apply_obj(&quill_diff(d, od), target, ot, t)
 }
 
 /// the REAL `MappingsDiff::diff`
 fn real_diff(a: &MSet, b: &MSet, oa: Order, ob: Order) -> Result<Result<MappingsDiff, String>, vcore::Panic> {
-	let (qa, qb) = (quill_set(a, oa), quill_set(b, ob));
+	let (qa, qb) = (quill_set::<2>(a, oa), quill_set::<2>(b, ob));
 	vcore::guard(|| MappingsDiff::diff(&qa, &qb).map_err(|e| format!("{e:#}")))
 }
 
@@ -680,8 +727,11 @@ struct Engine {
 	oracle_first_failure: Mutex<Option<String>>,
 }
 
-fn apply_case(target: &MSet, d: &MDiff, leg: &str, lab: &str) -> Value {
-	json!({"kind": "apply", "leg": leg, "slots": lab, "target": set_json(target), "diff": diff_json(d)})
+fn apply_case(target: &MSet, d: &MDiff, leg: &str, lab: &str, t: usize) -> Value {
+	json!({"kind": "apply", "leg": leg, "slots": lab, "target_namespace": t, "target": set_json(target), "diff": diff_json(d)})
+}
+fn text_case(target: &MSet, d: &MDiff, leg: &str, lab: &str, t: usize) -> Value {
+	json!({"kind": "text-apply", "leg": leg, "slots": lab, "target_namespace": t, "target": set_json(target), "diff": diff_json(d)})
 }
 fn pair_case(a: &MSet, b: &MSet) -> Value {
 	json!({"kind": "pair", "a": set_json(a), "b": set_json(b)})
@@ -690,26 +740,26 @@ fn pair_case(a: &MSet, b: &MSet) -> Value {
 impl Engine {
 	/// What one real outcome means against the reference: the outcome class and, if the statement is
 	/// broken, the key and description of the difference.
-	fn classify(real: &Real, expect: &mdiff::Expect, target: &MSet, outside: bool, lab: &str) -> (&'static str, Option<(String, String)>) {
+	fn classify(pre: &str, real: &Real, expect: &mdiff::Expect, target: &MSet, outside: bool, lab: &str) -> (&'static str, Option<(String, String)>) {
 		match (real, &expect.result) {
-			(Real::Panicked(p), _) => ("panicked", Some((format!("apply:panic@{}", p.file()), format!("apply_to panicked at {}: {}", p.site, p.msg)))),
+			(Real::Panicked(p), _) => ("panicked", Some((format!("{pre}:panic@{}", p.file()), format!("apply_to panicked at {}: {}", p.site, p.msg)))),
 			_ if outside => ("outside-statement", None),
-			(Real::KeyBroken(e), _) => ("key-broken", Some(("apply:key-invariant".to_owned(), format!("result of apply_to stores an entry under a key that is not its first name: {e}")))),
+			(Real::KeyBroken(e), _) => ("key-broken", Some((format!("{pre}:key-invariant"), format!("result of apply_to stores an entry under a key that is not its first name: {e}")))),
 			(Real::Ok(r), Some(e)) => {
 				if r == e {
 					(if r == target { "applied-no-change" } else if expect.may_refuse { "applied-where-refusal-allowed" } else { "applied" }, None)
 				} else {
 					let (k, what) = mapmodel::first_difference(e, r).unwrap_or(("other".into(), "differ".into()));
-					("wrong-result", Some((format!("apply:wrong-result:{k}"), format!("apply_to returned Ok with a set that is not what the diff says ({lab}): {what}"))))
+					("wrong-result", Some((format!("{pre}:wrong-result:{k}"), format!("apply_to returned Ok with a set that is not what the diff says ({lab}): {what}"))))
 				}
 			},
-			(Real::Ok(_), None) => ("accepted-inconsistent", Some((format!("apply:accepted-inconsistent:{lab}"), format!("apply_to returned Ok for a diff that is inconsistent with the target and must be refused: {}", expect.reason)))),
+			(Real::Ok(_), None) => ("accepted-inconsistent", Some((format!("{pre}:accepted-inconsistent:{lab}"), format!("apply_to returned Ok for a diff that is inconsistent with the target and must be refused: {}", expect.reason)))),
 			(Real::Refused(_), None) => ("refused-inconsistent", None),
 			(Real::Refused(e), Some(_)) => {
 				if expect.may_refuse {
 					("refused-where-statement-is-silent", None)
 				} else {
-					("refused-consistent", Some((format!("apply:refused-consistent:{lab}"), format!("apply_to refused a diff that is consistent with the target: {e}"))))
+					("refused-consistent", Some((format!("{pre}:refused-consistent:{lab}"), format!("apply_to refused a diff that is consistent with the target: {e}"))))
 				}
 			},
 		}
@@ -718,11 +768,11 @@ impl Engine {
 	/// One application of `d` to `target`: real code in lock-step with the reference, in two or three
 	/// insertion orders of target and diff (each run is judged against the reference, not against
 	/// the other runs). Returns the real outcome of the canonical (sorted insertion order) run.
-	fn judge_apply(&self, leg: &str, lab: &str, parts: &[Part], d: &MDiff, target: &MSet, qd_real: Option<&MappingsDiff>) -> Real {
-		let expect = mdiff::apply(d, target, 1);
+	fn judge_apply(&self, leg: &str, lab: &str, parts: &[Part], d: &MDiff, target: &MSet, qd_real: Option<&MappingsDiff>, t: usize) -> Real {
+		let expect = mdiff::apply(d, target, t);
 		// Removing the namespace itself with the right old name: the statement's "removals disappear"
 		// has no meaning for a namespace of a two-namespace set; only panics are judged there.
-		let outside = matches!(&d.info, Act::Remove(x) if x == &target.ns[1]);
+		let outside = matches!(&d.info, Act::Remove(x) if x == &target.ns[t]);
 		let mut runs: Vec<(Order, Order)> = vec![(Order::Sorted, Order::Sorted), (Order::Reversed, Order::Reversed)];
 		if parts.len() != 1 {
 			runs.push((Order::Sorted, Order::Reversed));
@@ -731,13 +781,13 @@ impl Engine {
 		let mut executions = 0u64;
 		for (i, (ot, od)) in runs.into_iter().enumerate() {
 			let real = match (i, qd_real) {
-				(0, Some(q)) => real_apply_obj(q, target, ot),
-				_ => real_apply(d, target, ot, od),
+				(0, Some(q)) => real_apply_obj(q, target, ot, t),
+				_ => real_apply(d, target, ot, od, t),
 			};
 			executions += 1;
-			let (outcome, problem) = Self::classify(&real, &expect, target, outside, lab);
+			let (outcome, problem) = Self::classify("apply", &real, &expect, target, outside, lab);
 			let replay = || {
-				format!("{}\n\ninsertion order: target {ot:?}, diff {od:?}\nexpected: {}\nreal: {}\n", apply_case(target, d, leg, lab),
+				format!("{}\n\ninsertion order: target {ot:?}, diff {od:?}\nexpected: {}\nreal: {}\n", apply_case(target, d, leg, lab, t),
 					match &expect.result { Some(e) => format!("Ok {}{}", set_json(e), if expect.may_refuse { " (or a refusal: the statement is silent)" } else { "" }), None => format!("refusal ({})", expect.reason) },
 					real.render())
 			};
@@ -778,6 +828,80 @@ impl Engine {
 		real
 	}
 
+	/// writes `text` to this thread's scratch file and runs the REAL `tiny_v2_diff::read_file` on it
+	fn read_text(&self, text: &str) -> Result<Result<MappingsDiff, String>, vcore::Panic> {
+		let path = self.scratch.join(format!("{}.tinydiff", MY_SHARD.with(|s| *s)));
+		if let Err(e) = std::fs::write(&path, text) {
+			vcore::machinery_fail(&format!("cannot write {path:?}: {e}"));
+		}
+		vcore::guard(|| quill::tiny_v2_diff::read_file(&path).map_err(|e| format!("{e:#}")))
+	}
+
+	/// printer self-check: the real reader gives back the diff the reference printer was given
+	fn selfcheck(&self, printed: &MDiff, text: &str, rd: &MappingsDiff) {
+		self.selfcheck_run.fetch_add(1, Ordering::Relaxed);
+		let back = mapmodel::diff_from_quill(rd);
+		if &back == printed {
+			self.selfcheck_ok.fetch_add(1, Ordering::Relaxed);
+		} else {
+			let mut f = self.selfcheck_first_failure.lock().unwrap();
+			if f.is_none() {
+				*f = Some(format!("printed {}\ntext:\n{text}\nread back {}", diff_json(printed), diff_json(&back)));
+			}
+		}
+	}
+
+	/// One diff taken through `.tinydiff` text (reference printer → file → REAL `read_file`) and then
+	/// applied by the REAL `apply_to`, in lock-step with the reference apply: in the printer's own
+	/// line order (must be readable) and with the same lines in another order (may be refused).
+	fn judge_text_apply(&self, leg: &str, lab: &str, d: &MDiff, target: &MSet, t: usize, styles: &[text::Style]) {
+		let nd = normalize(d);
+		if !text::printable(&nd) {
+			self.tally.with(|st| st.outcome(&format!("{leg}:not-expressible")));
+			return;
+		}
+		let expect = text::expect(d, &nd, target, t);
+		for &style in styles {
+			let canonical = style == text::Style::Canonical;
+			let sname = if canonical { "" } else { "shuffled-" };
+			let text = text::print(d, style);
+			let replay = |real: &str| {
+				format!("{}\n\n.tinydiff text ({}):\n{text}\nexpected: {}\nreal: {real}\n", text_case(target, d, leg, lab, t), style.name(),
+					match &expect.result { Some(e) => format!("Ok {}{}", set_json(e), if expect.may_refuse { " (or a refusal: the statement is silent)" } else { "" }), None => format!("refusal ({})", expect.reason) })
+			};
+			let rd = match self.read_text(&text) {
+				Err(p) => {
+					self.ctx.diff(&format!("text:panic@{}", p.file()), &format!("tiny_v2_diff::read_file panicked at {}: {}", p.site, p.msg), || replay("panic"));
+					self.tally.with(|st| { st.eval(); st.outcome(&format!("{leg}:{sname}read-panicked")); });
+					continue;
+				},
+				Ok(Err(e)) => {
+					if canonical {
+						self.ctx.diff("text:read-refused", &format!("tiny_v2_diff::read_file refuses the text form of a diff ({lab}): {e}"), || replay(&format!("read_file: Err {e}")));
+					}
+					self.tally.with(|st| { st.eval(); st.outcome(&format!("{leg}:{sname}read-refused")); });
+					continue;
+				},
+				Ok(Ok(rd)) => rd,
+			};
+			if canonical {
+				self.selfcheck(&nd, &text, &rd);
+			}
+			let real = real_apply_obj(&rd, target, Order::Sorted, t);
+			let (outcome, problem) = Self::classify("text-apply", &real, &expect, target, false, lab);
+			if let Some((key, what)) = &problem {
+				self.ctx.diff(key, &format!("through .tinydiff text ({}): {what}", style.name()), || replay(&real.render()));
+			}
+			self.tally.with(|st| {
+				st.evaluations += 2;
+				st.outcome(&format!("{leg}:{sname}{outcome}"));
+				if canonical && (matches!(&real, Real::Ok(r) if r != target) || matches!(real, Real::Refused(_))) {
+					st.distinct.add(&(target, d, "text"));
+				}
+			});
+		}
+	}
+
 	/// compares the result of applying a diff of (A,B) to A with B
 	fn judge_inverse(&self, prefix: &str, a: &MSet, b: &MSet, got: &Real, extra: &dyn Fn() -> String) -> &'static str {
 		let replay = || format!("{}\n\nexpected: apply(diff(A,B), A) == B\nreal: {}\n{}", pair_case(a, b), got.render(), extra());
@@ -810,7 +934,8 @@ impl Engine {
 		}
 	}
 
-	fn judge_pair(&self, a: &MSet, b: &MSet, st: &mut Stats) {
+	/// `styles`: the line orders in which the text forms are written
+	fn judge_pair(&self, a: &MSet, b: &MSet, st: &mut Stats, styles: &[text::Style]) {
 		st.eval();
 		st.outcome("pair:checked");
 		if a.ns != b.ns {
@@ -843,7 +968,7 @@ impl Engine {
 			},
 			Ok(Ok(q2)) => {
 				st.eval();
-				let got = real_apply_obj(&q2, a, Order::Reversed);
+				let got = real_apply_obj(&q2, a, Order::Reversed, 1);
 				let extra = || format!("A built in reversed, B in rotated insertion order\ndiff(A,B) = {}", diff_json(&mapmodel::diff_from_quill(&q2)));
 				let o = self.judge_inverse("inverse", a, b, &got, &extra);
 				st.outcome(&format!("pair:reordered-{o}"));
@@ -861,7 +986,7 @@ impl Engine {
 			Ok(qd) => {
 				let md = mapmodel::diff_from_quill(&qd);
 				// object leg: the real diff object applied by the real apply_to, in lock-step with the reference apply
-				let got = self.judge_apply("pair-apply", "diff-of-pair", &[], &md, a, Some(&qd));
+				let got = self.judge_apply("pair-apply", "diff-of-pair", &[], &md, a, Some(&qd), 1);
 				let extra = || format!("diff(A,B) = {}", diff_json(&md));
 				let o = self.judge_inverse("inverse", a, b, &got, &extra);
 				st.outcome(&format!("pair:{o}"));
@@ -869,39 +994,39 @@ impl Engine {
 					st.outcome("pair:inverse-holds-nontrivial");
 				}
 				st.distinct.add(&(a, b));
-				// text leg
+				// text leg: the reference printer's form and the same lines in another order
 				let nd = normalize(&md);
-				if mdiff::printable(&nd) {
-					let text = mdiff::print(&md);
-					let path = self.scratch.join(format!("{}.tinydiff", rayon::current_thread_index().map(|i| i.to_string()).unwrap_or_else(|| "main".into())));
-					if let Err(e) = std::fs::write(&path, &text) {
-						vcore::machinery_fail(&format!("cannot write {path:?}: {e}"));
-					}
-					st.eval();
-					let extra = || format!("diff(A,B) = {}\n.tinydiff text:\n{text}", diff_json(&md));
-					match vcore::guard(|| quill::tiny_v2_diff::read_file(&path).map_err(|e| format!("{e:#}"))) {
-						Err(p) => self.ctx.diff(&format!("text:panic@{}", p.file()), &format!("tiny_v2_diff::read_file panicked at {}: {}", p.site, p.msg), || format!("{}\n\n{}", pair_case(a, b), extra())),
-						Ok(Err(e)) => {
-							self.ctx.diff("text:read-refused", &format!("tiny_v2_diff::read_file refuses the text form of diff(A,B): {e}"), || format!("{}\n\n{}", pair_case(a, b), extra()));
-							st.outcome("pair:text-read-refused");
-						},
-						Ok(Ok(rd)) => {
-							st.eval();
-							let got = real_apply_obj(&rd, a, Order::Sorted);
-							let o = self.judge_inverse("text", a, b, &got, &extra);
-							st.outcome(&format!("pair:text-{o}"));
-							// printer self-check: what was read is what was printed
-							self.selfcheck_run.fetch_add(1, Ordering::Relaxed);
-							let back = mapmodel::diff_from_quill(&rd);
-							if back == nd {
-								self.selfcheck_ok.fetch_add(1, Ordering::Relaxed);
-							} else {
-								let mut f = self.selfcheck_first_failure.lock().unwrap();
-								if f.is_none() {
-									*f = Some(format!("printed {}\ntext:\n{text}\nread back {}", diff_json(&nd), diff_json(&back)));
+				if text::printable(&nd) {
+					for &style in styles {
+						let canonical = style == text::Style::Canonical;
+						let text = text::print(&md, style);
+						st.eval();
+						let extra = || format!("diff(A,B) = {}\n.tinydiff text ({}):\n{text}", diff_json(&md), style.name());
+						match self.read_text(&text) {
+							Err(p) => self.ctx.diff(&format!("text:panic@{}", p.file()), &format!("tiny_v2_diff::read_file panicked at {}: {}", p.site, p.msg), || format!("{}\n\n{}", pair_case(a, b), extra())),
+							Ok(Err(e)) => {
+								if canonical {
+									self.ctx.diff("text:read-refused", &format!("tiny_v2_diff::read_file refuses the text form of diff(A,B): {e}"), || format!("{}\n\n{}", pair_case(a, b), extra()));
+									st.outcome("pair:text-read-refused");
+								} else {
+									// the statement does not say in which order the lines of a diff may come
+									st.outcome("pair:text-shuffled-read-refused");
 								}
-							}
-						},
+							},
+							Ok(Ok(rd)) => {
+								st.eval();
+								let got = real_apply_obj(&rd, a, Order::Sorted, 1);
+								if canonical {
+									let o = self.judge_inverse("text", a, b, &got, &extra);
+									st.outcome(&format!("pair:text-{o}"));
+									// printer self-check: what was read is what was printed
+									self.selfcheck(&nd, &text, &rd);
+								} else {
+									let o = self.judge_inverse("text-shuffled", a, b, &got, &extra);
+									st.outcome(&format!("pair:text-shuffled-{o}"));
+								}
+							},
+						}
 					}
 				} else {
 					st.outcome("pair:text-not-expressible");
@@ -914,10 +1039,12 @@ impl Engine {
 			let e = mdiff::apply(&rd, a, 1);
 			if e.result.as_ref() == Some(b) && !e.may_refuse {
 				self.oracle_ok.fetch_add(1, Ordering::Relaxed);
-				let got = self.judge_apply("sparse-apply", "sparse-diff-of-pair", &[], &rd, a, None);
+				let got = self.judge_apply("sparse-apply", "sparse-diff-of-pair", &[], &rd, a, None, 1);
 				if matches!(got, Real::Ok(_)) {
 					st.outcome("pair:sparse-diff-applied");
 				}
+				// the sparse diff as text: entry lines without an action, entries left out
+				self.judge_text_apply("sparse-text", "sparse-diff-of-pair", &rd, a, 1, styles);
 			} else {
 				let mut f = self.oracle_first_failure.lock().unwrap();
 				if f.is_none() {
@@ -1029,7 +1156,7 @@ struct ApplyModel {
 
 impl ApplyModel {
 	fn steps(&self, st: &St) -> Vec<Step> {
-		steps_for(&st.set, if st.depth < self.all_pairs_below { Pairs::All } else { Pairs::ParentChild })
+		steps_for(&st.set, if st.depth < self.all_pairs_below { Pairs::All } else { Pairs::ParentChild }, 1)
 	}
 }
 
@@ -1049,7 +1176,13 @@ impl Model for ApplyModel {
 
 	fn next_state(&self, st: &St, step: Step) -> Option<St> {
 		self.transitions.fetch_add(1, Ordering::Relaxed);
-		let real = vcore::watched(|| format!("apply at depth {} of {}", st.depth, label(&step.parts)), || self.eng.judge_apply("step", &label(&step.parts), &step.parts, &step.diff, &st.set, None));
+		let real = vcore::watched(|| format!("apply at depth {} of {}", st.depth, label(&step.parts)), || {
+			let lab = label(&step.parts);
+			let real = self.eng.judge_apply("step", &lab, &step.parts, &step.diff, &st.set, None, 1);
+			// the same diff as .tinydiff text
+			self.eng.judge_text_apply("step-text", &lab, &step.diff, &st.set, 1, &text::STYLES);
+			real
+		});
 		match real {
 			Real::Ok(next) if next != st.set => {
 				// the successors of two-slot diffs are checked but not expanded further
@@ -1180,11 +1313,11 @@ fn main() {
 
 	// ---- engine 1: state graph
 	let max_depth: u8 = ctx.tier.pick(2, 3);
-	let all_pairs_below: u8 = ctx.tier.pick(0, 2);
+	let all_pairs_below: u8 = ctx.tier.pick(1, 2);
 	let transitions: &'static AtomicU64 = Box::leak(Box::new(AtomicU64::new(0)));
 	let reached: &'static Vec<Mutex<BTreeMap<MSet, u8>>> = Box::leak(Box::new((0..64).map(|_| Mutex::new(BTreeMap::new())).collect()));
 	let model = ApplyModel { eng, max_depth, all_pairs_below, transitions, reached };
-	let alphabet_sizes: Vec<Value> = initial_sets().iter().map(|(n, m)| json!({"initial": n, "single_slot_diffs": steps_for(m, Pairs::ParentChild).iter().filter(|s| s.parts.len() == 1).count(), "with_parent_child_pairs": steps_for(m, Pairs::ParentChild).len(), "with_all_pairs": steps_for(m, Pairs::All).len()})).collect();
+	let alphabet_sizes: Vec<Value> = initial_sets().iter().map(|(n, m)| json!({"initial": n, "single_slot_diffs": steps_for(m, Pairs::ParentChild, 1).iter().filter(|s| s.parts.len() == 1).count(), "with_parent_child_pairs": steps_for(m, Pairs::ParentChild, 1).len(), "with_all_pairs": steps_for(m, Pairs::All, 1).len()})).collect();
 	let checker = model.checker().threads(rayon::current_num_threads().max(1)).spawn_bfs().join();
 	if !checker.is_done() {
 		vcore::machinery_fail("stateright did not finish the state space");
@@ -1209,32 +1342,97 @@ fn main() {
 	let sources_beyond_initial = s_all.iter().filter(|(d, _)| *d >= 1 && *d < max_depth).count() as u64;
 
 	// ---- engine 2: pairs over the reached sets
-	let cap: usize = ctx.tier.pick(640, 2600);
+	let cap: usize = ctx.tier.pick(400, 2600);
 	let mut caps_hit: Vec<String> = Vec::new();
-	let chosen: Vec<&MSet> = if s_all.len() <= cap {
-		s_all.iter().map(|(_, m)| m).collect()
-	} else {
-		// every set up to depth 1 (as far as half the cap allows), then an even stride through the rest
-		let shallow = s_all.iter().take_while(|(d, _)| *d <= 1).count().min(cap / 2);
-		let rest = &s_all[shallow..];
-		let want = cap - shallow;
-		let mut v: Vec<&MSet> = s_all[..shallow].iter().map(|(_, m)| m).collect();
-		for i in 0..want {
-			v.push(&rest[i * rest.len() / want].1);
+	// diff() can only speak about sets in which every entry has a target name: three quarters of the
+	// budget go to those (the pairs on which the inverse law says something), the rest to the others
+	let (s_complete, s_partial): (Vec<&(u8, MSet)>, Vec<&(u8, MSet)>) = s_all.iter().partition(|(_, m)| complete(m));
+	fn pick_spread<'a>(list: &[&'a (u8, MSet)], want: usize, what: &str, caps_hit: &mut Vec<String>) -> Vec<&'a MSet> {
+		if list.len() <= want {
+			return list.iter().map(|(_, m)| m).collect();
 		}
-		caps_hit.push(format!("pair sweep uses {} of {} reached sets (the {} simplest, then every {:.1}-th in canonical order)", cap, s_all.len(), shallow, rest.len() as f64 / want as f64));
+		// every set up to depth 1 (as far as half the budget allows), then an even stride through the rest
+		let shallow = list.iter().take_while(|(d, _)| *d <= 1).count().min(want / 2);
+		let rest = &list[shallow..];
+		let more = want - shallow;
+		let mut v: Vec<&MSet> = list[..shallow].iter().map(|(_, m)| m).collect();
+		for i in 0..more {
+			v.push(&rest[i * rest.len() / more].1);
+		}
+		caps_hit.push(format!("pair sweep uses {} of {} reached sets {what} (the {} simplest, then every {:.1}-th in canonical order)", want, list.len(), shallow, rest.len() as f64 / more as f64));
 		v
-	};
+	}
+	let want_partial = (cap / 4).min(s_partial.len());
+	let want_complete = (cap - want_partial).min(s_complete.len());
+	let want_partial = (cap - want_complete).min(s_partial.len());
+	let mut chosen: Vec<&MSet> = pick_spread(&s_complete, want_complete, "with all target names", &mut caps_hit);
+	let chosen_complete = chosen.len() as u64;
+	chosen.extend(pick_spread(&s_partial, want_partial, "with a missing target name", &mut caps_hit));
 	let n = chosen.len() as u64;
 	let pair_stats = (0..n * n).into_par_iter().fold(Stats::new, |mut st, idx| {
 		let (a, b) = (chosen[(idx / n) as usize], chosen[(idx % n) as usize]);
-		vcore::watched(|| format!("pair {idx} of the chosen sets"), || eng.judge_pair(a, b, &mut st));
+		vcore::watched(|| format!("pair {idx} of the chosen sets"), || eng.judge_pair(a, b, &mut st, &text::STYLES[..1]));
 		st.sample(if a == b { "pair-equal" } else if a.classes.is_empty() || b.classes.is_empty() { "pair-with-empty" } else { "pair" }, || {
 			let d = real_diff(a, b, Order::Sorted, Order::Sorted).ok().and_then(|r| r.ok()).map(|q| mapmodel::diff_from_quill(&q));
 			json!({"kind": "pair", "a": set_json(a), "b": set_json(b), "real_diff": d.as_ref().map(diff_json), "tinydiff_text": d.as_ref().filter(|d| mdiff::printable(&normalize(d))).map(mdiff::print)})
 		});
 		st
 	}).reduce(Stats::new, Stats::merge);
+	let pairs_wall = ctx.elapsed_s();
+
+	// ---- engine 4: pairs over universes with several entries in one map
+	let mut sibling_stats = Stats::new();
+	let mut sibling_json: BTreeMap<String, Value> = BTreeMap::new();
+	let mut sibling_min_nontrivial = u64::MAX;
+	let mut sibling_min_text = u64::MAX;
+	let mut third_cases = 0u64;
+	for (name, sets) in extra::sibling_universes(!ctx.quick()) {
+		let n = sets.len() as u64;
+		// the sets one action away from each set: the "wrong base versions" the diff of a pair is also applied to
+		let near = extra::neighbours(&sets);
+		third_cases += near.iter().map(|v| v.len() as u64).sum::<u64>() * (n - 1);
+		let stt = (0..n * n).into_par_iter().fold(Stats::new, |mut st, idx| {
+			let (a, b) = (&sets[(idx / n) as usize], &sets[(idx % n) as usize]);
+			vcore::watched(|| format!("pair {idx} of the universe {name}"), || eng.judge_pair(a, b, &mut st, &text::STYLES));
+			if a != b {
+				if let Ok(Ok(qd)) = real_diff(a, b, Order::Sorted, Order::Sorted) {
+					st.eval();
+					let md = mapmodel::diff_from_quill(&qd);
+					for &ci in &near[(idx / n) as usize] {
+						vcore::watched(|| format!("diff of pair {idx} of the universe {name} on set {ci}"), || {
+							eng.judge_apply("third", "diff-of-pair-on-a-third-set", &[], &md, &sets[ci], None, 1);
+						});
+					}
+				}
+			}
+			st.sample(name, || json!({"kind": "pair", "universe": name, "a": set_json(a), "b": set_json(b)}));
+			st
+		}).reduce(Stats::new, Stats::merge);
+		sibling_min_nontrivial = sibling_min_nontrivial.min(stt.get("pair:inverse-holds-nontrivial") + stt.get("pair:inverse-holds-up-to-parameter-source-names"));
+		sibling_min_text = sibling_min_text.min(stt.get("pair:text-inverse-holds") + stt.get("pair:text-inverse-holds-up-to-parameter-source-names"));
+		sibling_json.insert(name.to_owned(), json!({"sets": n, "ordered_pairs": n * n, "outcomes": stt.outcomes}));
+		let mut renamed = Stats::new();
+		renamed.evaluations = stt.evaluations;
+		for (k, v) in &stt.outcomes {
+			renamed.outcome_n(&format!("sibling-{k}"), *v);
+		}
+		renamed.distinct = stt.distinct;
+		renamed.samples = stt.samples;
+		sibling_stats = sibling_stats.merge(renamed);
+	}
+	let siblings_wall = ctx.elapsed_s();
+
+	// ---- engine 5: three namespaces
+	let wide_sources: Vec<MSet> = s_all.iter().filter(|(d, _)| *d <= 1).map(|(_, m)| m.clone()).collect();
+	let wide_pairs = ctx.tier.pick(Pairs::ParentChild, Pairs::All);
+	let (wide_targets, wide_cases) = extra::wide_sweep(eng, &wide_sources, wide_pairs);
+
+	// ---- engine 6: the namespace argument; engine 7: comments that need escaping; engine 8: damaged texts
+	let nsarg_stats = extra::namespace_argument(eng);
+	let escape_len: usize = ctx.tier.pick(4, 5);
+	let escape_pair_len: usize = ctx.tier.pick(2, 3);
+	let escape_counts = text::escape_space(eng, escape_len, escape_pair_len);
+	let damaged_stats = text::damaged_texts(eng);
 	let _ = std::fs::remove_dir_all(&scratch);
 
 	let tally = eng.tally.total();
@@ -1261,14 +1459,30 @@ fn main() {
 			}
 		}
 	}
+	let mut wide_cells: BTreeMap<String, (u64, u64)> = BTreeMap::new();
+	for (k, v) in &tally.outcomes {
+		if let Some(rest) = k.strip_prefix("wide-cov|") {
+			if let Some((cell, class)) = rest.rsplit_once('|') {
+				let e = wide_cells.entry(cell.to_owned()).or_insert((0, 0));
+				if class == "ok" { e.0 += v } else if class == "refused" { e.1 += v }
+			}
+		}
+	}
 	let (need_refuse, need_succeed) = required_cells();
+	let wide_refused_cells = need_refuse.iter().filter(|c| wide_cells.get(*c).is_some_and(|e| e.1 > 0)).count() as u64;
+	let wide_succeeded_cells = need_succeed.iter().filter(|c| wide_cells.get(*c).is_some_and(|e| e.0 > 0)).count() as u64;
 	let refused_cells = need_refuse.iter().filter(|c| cells.get(*c).is_some_and(|e| e.1 > 0)).count() as u64;
 	let succeeded_cells = need_succeed.iter().filter(|c| cells.get(*c).is_some_and(|e| e.0 > 0)).count() as u64;
 	let missing: Vec<String> = need_refuse.iter().filter(|c| !cells.get(*c).is_some_and(|e| e.1 > 0)).map(|c| format!("no refusal in {c}")).chain(need_succeed.iter().filter(|c| !cells.get(*c).is_some_and(|e| e.0 > 0)).map(|c| format!("no success in {c}"))).collect();
 	if !missing.is_empty() {
 		ctx.note(format!("cells not exercised: {missing:?}"));
 	}
-	let outcomes: BTreeMap<String, u64> = tally.outcomes.iter().filter(|(k, _)| !k.starts_with("cov|")).map(|(k, v)| (k.clone(), *v)).chain(pair_stats.outcomes.iter().map(|(k, v)| (k.clone(), *v))).collect();
+	let outcomes: BTreeMap<String, u64> = tally.outcomes.iter().filter(|(k, _)| !k.starts_with("cov|") && !k.starts_with("wide-cov|")).map(|(k, v)| (k.clone(), *v))
+		.chain(pair_stats.outcomes.iter().map(|(k, v)| (k.clone(), *v)))
+		.chain(sibling_stats.outcomes.iter().map(|(k, v)| (k.clone(), *v)))
+		.chain(nsarg_stats.outcomes.iter().map(|(k, v)| (k.clone(), *v)))
+		.chain(damaged_stats.outcomes.iter().map(|(k, v)| (k.clone(), *v)))
+		.collect();
 	let get = |k: &str| outcomes.get(k).copied().unwrap_or(0);
 
 	ctx.floor("(level, action form, target condition) cells with a refusal, of those where the statement demands one", need_refuse.len() as u64, refused_cells);
@@ -1286,22 +1500,46 @@ fn main() {
 	ctx.floor("printer self-check passes (must equal the number of text legs)", selfcheck_run, selfcheck_ok);
 	ctx.floor("oracle self-check passes (reference apply of reference diff gives B)", oracle_run, oracle_ok);
 	ctx.floor("sparse diffs (unchanged entries left out) applied", 1000, get("pair:sparse-diff-applied"));
+	// the text form of the diffs of the state graph
+	let sum_prefix = |p: &str| outcomes.iter().filter(|(k, _)| k.starts_with(p)).map(|(_, v)| *v).sum::<u64>();
+	ctx.floor("diffs of the state graph applied after travelling through .tinydiff text", ctx.tier.pick(2000, 20000), get("step-text:applied") + get("step-text:applied-where-refusal-allowed"));
+	ctx.floor("inconsistent diffs of the state graph refused after travelling through .tinydiff text", ctx.tier.pick(2000, 20000), get("step-text:refused-inconsistent"));
+	ctx.floor("texts with the lines in another order read and applied", 1000, sum_prefix("step-text:shuffled-applied") + get("sibling-pair:text-shuffled-inverse-holds"));
+	ctx.floor("sparse diffs (entry lines without an action) taken through text", 1000, get("sparse-text:applied") + get("sparse-text:applied-no-change"));
+	ctx.floor("comment strings with an escape and a character outside ASCII taken through text", 100, escape_counts.strings_with_escape_and_non_ascii);
+	ctx.floor("comment actions over the escape space applied through text", 4 * 4 * escape_counts.strings, get("escape-text:applied"));
+	ctx.floor("inconsistent comment actions over the escape space refused through text", 4 * escape_counts.strings + 2 * escape_counts.string_pairs, get("escape-text:refused-inconsistent"));
+	// siblings
+	ctx.floor("pairs with A != B where apply(diff(A,B),A) == B, in the smallest of the sibling universes", 1000, sibling_min_nontrivial);
+	ctx.floor("pairs through .tinydiff text, in the smallest of the sibling universes", 1000, sibling_min_text);
+	ctx.floor("diffs of a pair (A,B) applied to a set one action away from A: refused", 1000, get("third:refused-inconsistent"));
+	ctx.floor("diffs of a pair (A,B) applied to a set one action away from A: applied", 1000, get("third:applied") + get("third:applied-where-refusal-allowed"));
+	// three namespaces
+	ctx.floor("three-namespace targets", 6, wide_targets);
+	ctx.floor("three namespaces: (level, action form, target condition) cells with a refusal, of those where the statement demands one", need_refuse.len() as u64, wide_refused_cells);
+	ctx.floor("three namespaces: (level, action form, target condition) cells with a success, of those where the statement demands one", need_succeed.len() as u64, wide_succeeded_cells);
+	ctx.floor("three namespaces: applications that changed the set", 1000, get("wide:applied") + get("wide:applied-where-refusal-allowed"));
+	// namespace argument, damaged texts
+	ctx.floor("applications with a namespace name the target does not have, refused", 100, get("namespace-argument:unknown:refused"));
+	ctx.floor("damaged texts refused by the reader", 50, get("damaged-text:read-refused"));
+	ctx.floor("damaged texts accepted by the reader (and applied without a panic)", 10, get("damaged-text:read-accepted"));
 	ctx.floor("apply_diff_option cells", 72, option_cells);
 	ctx.floor("apply_diff_option refusals", 20, get("option:refused"));
 
 	// deterministic samples of transitions
 	let mut samples: Vec<Value> = Vec::new();
 	for (name, m) in initial_sets() {
-		let steps = steps_for(&m, Pairs::ParentChild);
+		let steps = steps_for(&m, Pairs::ParentChild, 1);
 		for pickidx in [steps.len() / 3, steps.len() - 1] {
 			let s = &steps[pickidx];
-			let r = real_apply(&s.diff, &m, Order::Sorted, Order::Sorted);
+			let r = real_apply(&s.diff, &m, Order::Sorted, Order::Sorted, 1);
 			samples.push(json!({"kind": "transition", "from": name, "slots": label(&s.parts), "diff": diff_json(&s.diff), "real": r.class(), "result": if let Real::Ok(x) = &r { set_json(x) } else { Value::Null }}));
 		}
 	}
 	samples.extend(pair_stats.samples.iter().cloned());
+	samples.extend(sibling_stats.samples.iter().cloned());
 
-	let evaluations = tally.evaluations + pair_stats.evaluations;
+	let evaluations = tally.evaluations + pair_stats.evaluations + sibling_stats.evaluations + nsarg_stats.evaluations + damaged_stats.evaluations;
 	let cells_json: BTreeMap<String, Value> = cells.iter().map(|(k, (ok, refused))| (k.clone(), json!({"ok": ok, "refused": refused}))).collect();
 	let coverage = json!({
 		"states": graph_states,
@@ -1311,7 +1549,7 @@ fn main() {
 		"traces_validated_against_impl": n_transitions,
 		"max_depth": graph_max_depth,
 		"evaluations": evaluations,
-		"distinct_nontrivial": tally.distinct.len() + pair_stats.distinct.len(),
+		"distinct_nontrivial": tally.distinct.len() + pair_stats.distinct.len() + sibling_stats.distinct.len(),
 		"rule": "a state is (number of diffs applied, two-namespace mapping set); a transition builds the real Mappings and MappingsDiff, runs the real apply_to (in 2-3 insertion orders) and compares the projected result with the reference apply; distinct_nontrivial = distinct (target, diff) cases whose application changed the set or was refused, plus distinct ordered pairs (A,B) taken through the real diff → apply_to (→ .tinydiff text → read_file → apply_to). evaluations counts executions of real apply_to / diff / read_file / apply_diff_option",
 		"exhaustive": caps_hit.is_empty(),
 		"caps_hit": caps_hit,
@@ -1326,17 +1564,32 @@ fn main() {
 			"every_two_slot_diff_below_depth": all_pairs_below,
 			"parent_child_two_slot_diffs_at_every_depth": true,
 			"pair_sweep_sets": n,
+			"pair_sweep_sets_with_all_target_names": chosen_complete,
+			"reached_sets_with_all_target_names": s_complete.len(),
 			"pair_sweep_cap": cap,
+			"text_line_orders": text::STYLES.iter().map(|s| s.name()).collect::<Vec<_>>(),
+			"sibling_universes": sibling_json,
+			"diff_of_pair_on_third_set": {"third_sets": "for (A,B): every set of the universe whose reference diff from A has exactly one action", "cases": third_cases},
+			"three_namespaces": {"sources": "the reached sets of depth <= 1, each with an extra namespace before and behind the target namespace", "targets": wide_targets, "diffs_per_target": if wide_pairs == Pairs::All { "every one- and two-slot diff" } else { "every one-slot diff and the parent+child two-slot diffs" }, "cases": wide_cases},
+			"escape_space": {"alphabet": text::ESCAPE_ALPHABET.iter().map(|c| c.to_string()).collect::<Vec<_>>(), "max_length": escape_len, "strings": escape_counts.strings, "forms_per_string_and_level": ["add", "remove", "edit to", "edit from", "remove with another value in the target"], "pair_max_length": escape_pair_len, "ordered_pairs_of_strings": escape_counts.string_pairs},
+			"damaged_texts": damaged_stats.evaluations,
 		},
 		"outcomes": outcomes,
 		"single_slot_cells": cells_json,
+		"three_namespace_single_slot_cells": wide_cells.iter().map(|(k, (ok, refused))| (k.clone(), json!({"ok": ok, "refused": refused}))).collect::<BTreeMap<String, Value>>(),
+		"wall_s_after_pair_sweep": (pairs_wall * 1000.0).round() / 1000.0,
+		"wall_s_after_sibling_universes": (siblings_wall * 1000.0).round() / 1000.0,
 		"apply_diff_option_table": option_rows,
 		"pairs": {"sets": n, "ordered_pairs": n * n, "text_legs": selfcheck_run},
 		"wall_s_state_graph": (graph_wall * 1000.0).round() / 1000.0,
 	});
 	ctx.finish(coverage, &[
 		"names and comments come from a two-value alphabet per slot; names containing TAB/newline are outside the formats",
-		"comments that are empty or contain a backslash are applied and diffed as objects but not taken through .tinydiff text (empty cell = absent in the text form)",
+		"comments that are empty or contain a TAB or a carriage return are applied and diffed as objects but not taken through .tinydiff text (empty cell = absent in the text form; the format has no escape for the other two)",
+		"the text form is the one of the reference printer (the repository has no writer for .tinydiff); the same lines in another sibling order may be refused by the reader, but if read they must mean the same",
+		"two equal columns in the text say 'no action': where the object form Edit(a, a) must be refused (a is not the target's value) the text form may be refused or applied as a no-op",
+		"targets with a third namespace are applied to (either non-first namespace as target); diff() exists for two namespaces only",
+		"the first namespace as target namespace, and texts that are not what the reference printer writes (damaged lines, other headers) are outside the statement: only panics and hangs are judged",
 		"a parameter's source-namespace name cannot be said by a diff; pairs that differ in it are judged (diff must refuse or apply must give B)",
 		"removing the namespace itself, and pairs over different namespaces, are outside the statement: only panics are judged there",
 		"where the statement is silent (actions below a removed entry, a change-free line for a missing entry, diff of sets with missing target names) a refusal and the reference result are both accepted",
@@ -1353,9 +1606,10 @@ fn replay(ctx: &'static Ctx, eng: &'static Engine, path: &Path) -> ! {
 		"apply" => {
 			let target = set_from_json(v.get("target").unwrap_or_else(|| bad_replay("target")));
 			let d = diff_from_json(v.get("diff").unwrap_or_else(|| bad_replay("diff")));
-			let r1 = eng.judge_apply(&p_str(&v, "leg"), &p_str(&v, "slots"), &[], &d, &target, None);
-			let r2 = real_apply(&d, &target, Order::Sorted, Order::Sorted);
-			println!("expected: {:?}\nreal: {}", mdiff::apply(&d, &target, 1), r1.render());
+			let t = v.get("target_namespace").and_then(|x| x.as_u64()).unwrap_or(1) as usize;
+			let r1 = eng.judge_apply(&p_str(&v, "leg"), &p_str(&v, "slots"), &[], &d, &target, None, t);
+			let r2 = real_apply(&d, &target, Order::Sorted, Order::Sorted, t);
+			println!("expected: {:?}\nreal: {}", mdiff::apply(&d, &target, t), r1.render());
 			if r1 != r2 {
 				vcore::machinery_fail("replay is not deterministic");
 			}
@@ -1364,9 +1618,9 @@ fn replay(ctx: &'static Ctx, eng: &'static Engine, path: &Path) -> ! {
 			let a = set_from_json(v.get("a").unwrap_or_else(|| bad_replay("a")));
 			let b = set_from_json(v.get("b").unwrap_or_else(|| bad_replay("b")));
 			let mut st = Stats::new();
-			eng.judge_pair(&a, &b, &mut st);
+			eng.judge_pair(&a, &b, &mut st, &text::STYLES);
 			let mut st2 = Stats::new();
-			eng.judge_pair(&a, &b, &mut st2);
+			eng.judge_pair(&a, &b, &mut st2, &text::STYLES);
 			println!("outcomes: {:?}", st.outcomes);
 			if st.outcomes != st2.outcomes {
 				vcore::machinery_fail("replay is not deterministic");
@@ -1374,6 +1628,52 @@ fn replay(ctx: &'static Ctx, eng: &'static Engine, path: &Path) -> ! {
 		},
 		"option" => {
 			eng.option_table();
+		},
+		"text-apply" => {
+			let target = set_from_json(v.get("target").unwrap_or_else(|| bad_replay("target")));
+			let d = diff_from_json(v.get("diff").unwrap_or_else(|| bad_replay("diff")));
+			let t = v.get("target_namespace").and_then(|x| x.as_u64()).unwrap_or(1) as usize;
+			for _ in 0..2 {
+				eng.judge_text_apply(&p_str(&v, "leg"), &p_str(&v, "slots"), &d, &target, t, &text::STYLES);
+			}
+			println!("expected: {:?}", text::expect(&d, &normalize(&d), &target, t));
+			for style in text::STYLES {
+				let text = text::print(&d, style);
+				let rd = eng.read_text(&text);
+				println!("text ({}):\n{text}read_file: {}", style.name(), match &rd { Ok(Ok(q)) => format!("Ok {}", diff_json(&mapmodel::diff_from_quill(q))), Ok(Err(e)) => format!("Err {e}"), Err(p) => format!("panic at {}: {}", p.site, p.msg) });
+				if let Ok(Ok(q)) = &rd {
+					println!("apply_to: {}", real_apply_obj(q, &target, Order::Sorted, t).render());
+				}
+			}
+		},
+		"damaged-text" => {
+			let text = p_str(&v, "text");
+			let (r1, r2) = (eng.read_text(&text), eng.read_text(&text));
+			let show = |r: &Result<Result<MappingsDiff, String>, vcore::Panic>| match r { Ok(Ok(q)) => format!("Ok {}", diff_json(&mapmodel::diff_from_quill(q))), Ok(Err(e)) => format!("Err {e}"), Err(p) => format!("panic at {}: {}", p.site, p.msg) };
+			println!("read_file: {}", show(&r1));
+			if show(&r1) != show(&r2) {
+				vcore::machinery_fail("replay is not deterministic");
+			}
+			if let Err(p) = &r1 {
+				ctx.diff(&format!("text:panic@{}", p.file()), &format!("tiny_v2_diff::read_file panicked at {}: {}", p.site, p.msg), || body.clone());
+			}
+		},
+		"namespace-argument" => {
+			let target = set_from_json(v.get("target").unwrap_or_else(|| bad_replay("target")));
+			let d = diff_from_json(v.get("diff").unwrap_or_else(|| bad_replay("diff")));
+			let name = p_str(&v, "name");
+			let qd = quill_diff(&d, Order::Sorted);
+			let (r1, r2) = (real_apply_named::<2>(&qd, &target, Order::Sorted, &name), real_apply_named::<2>(&qd, &target, Order::Sorted, &name));
+			println!("apply_to(target, {name:?}): {}", r1.render());
+			if r1 != r2 {
+				vcore::machinery_fail("replay is not deterministic");
+			}
+			match &r1 {
+				Real::Panicked(p) => ctx.diff(&format!("apply:panic@{}", p.file()), &format!("apply_to panicked at {}: {}", p.site, p.msg), || body.clone()),
+				Real::Refused(_) => {},
+				_ if name == NAMESPACES[0] => {},
+				_ => ctx.diff("apply:unknown-namespace-accepted", "apply_to returned Ok for a target namespace the target does not have", || body.clone()),
+			}
 		},
 		other => bad_replay(&format!("unknown kind {other:?}")),
 	}
